@@ -194,11 +194,14 @@ func iccSeeds() []hseed {
 	for _, r := range "Unicode description!" {
 		ud = append(ud, 0, byte(r))
 	}
+	// ... and the same tag ending with its last code unit (no script-code part, nothing null after it)
+	v2e := gen.BuildICC(func() []byte { h := gen.ICCHeader(0); h[8], h[9] = 2, 0x40; return h }(),
+		[]gen.ICCTag{{"cprt", 1}, {"desc", 0}}, []gen.ICCBlock{{Data: append([]byte{}, ud...)}, {Data: gen.Payload(24, 1, true)}}, []int{1, 0}, nil)
 	ud = append(ud, make([]byte, 2+1+67)...)
 	v2u := gen.BuildICC(func() []byte { h := gen.ICCHeader(0); h[8], h[9] = 2, 0x40; return h }(),
 		[]gen.ICCTag{{"desc", 0}, {"cprt", 1}}, []gen.ICCBlock{{Data: ud}, {Data: gen.Payload(24, 1, true)}}, nil, nil)
 	return []hseed{{"icc-v2", "icc", v2, walkICC(v2)}, {"icc-v4", "icc", v4, walkICC(v4)},
-		{"icc-v2-unicode-only", "icc", v2u, walkICC(v2u)},
+		{"icc-v2-unicode-only", "icc", v2u, walkICC(v2u)}, {"icc-v2-unicode-to-end", "icc", v2e, walkICC(v2e)},
 		{"icc-many-shared-tags", "icc", many, map[string][]fpos{"profile_size": {{0, 4, false}}}},
 		{"icc-long-v2-description", "icc", longV2, map[string][]fpos{"profile_size": {{0, 4, false}}}},
 		{"icc-long-v4-description", "icc", longV4, map[string][]fpos{"profile_size": {{0, 4, false}}}}}
